@@ -11,6 +11,13 @@ REPO = os.environ.get("PYVC_REPO", "/repo")
 NATIVE_PY = "/venv/bin/python"
 
 PLANS = {
+    "C06": {
+        "level": "proof",
+        "sidecars": ["titration"],
+        "extras": [{"name": "c06_support_table", "module": "tables.x_checks", "func": "c06_support", "python": "vt"}],
+        "explanation": "apply_pka_values decision table proved equal to the statement for every pH/pKa, every group, "
+                       "position and built-in force field, against a support oracle computed from the real pipeline",
+    },
     "C13": {
         "level": "proof",
         "sidecars": ["ssbridge"],
